@@ -22,6 +22,7 @@ import (
 	"testing"
 	"time"
 
+	"github.com/openbao/openbao/sdk/v2/helper/salt"
 	"github.com/openbao/openbao/sdk/v2/logical"
 	"github.com/openbao/openbao/v2/internal/zzverif/vh"
 )
@@ -44,6 +45,10 @@ type c04Tok struct {
 	parent    int    // creating parent (ordinal) or -1
 	depth     int
 	kids      int
+	custom    bool         // caller-chosen id (the identity can be created again after a revocation)
+	cubSalted string       // the doubly salted token id: where the router keeps the cubbyhole of a prefix-less root-namespace token
+	cubWritten map[int]bool // cubbyhole keys written by the current incarnation
+	seen      bool         // a storage key of this (pending) token was observed
 }
 
 type c04Lease struct {
@@ -72,6 +77,8 @@ type c04World struct {
 	basePnd map[string]bool
 	lines   [][2]string // (op fields joined by tab, result) of the current case, for re-emission
 	out     *vh.Out
+	caseNo  int
+	pendViol string // predicate failure found by an operation, reported on the next `check` line
 	// property bookkeeping: observations only, no model of the code
 	dead      map[int]c04Dead
 	lastIDs   map[int]int // id entries in the last digest: ord -> parent ord (-1 none, -2 unknown)
@@ -80,6 +87,8 @@ type c04World struct {
 	lastCub   map[int]int
 	lastSl    map[int]bool // lease ord -> live
 }
+
+var c04CaseNo int
 
 func c04Rel(k string) bool {
 	return strings.HasPrefix(k, "sys/token/id/") || strings.HasPrefix(k, "sys/token/accessor/") ||
@@ -109,6 +118,9 @@ func c04NewWorld(t *testing.T, out *vh.Out) *c04World {
 
 // newCase forgets the previous case's tokens: whatever they left in storage is ignored from now on.
 func (w *c04World) newCase() {
+	c04CaseNo++
+	w.caseNo = c04CaseNo
+	w.pendViol = ""
 	w.toks = nil
 	w.leases = nil
 	w.lines = nil
@@ -138,13 +150,19 @@ func (w *c04World) emit(res string, fields ...string) {
 	w.out.Op(res, fields...)
 }
 
+// c04Skey: listing order key of a salted id. Plain-hex ids (caller-chosen token ids, lease ids) sort before the
+// "h"-prefixed HMAC ids.
 func c04Skey(s string) uint64 {
-	s = strings.TrimPrefix(s, "h")
+	var base uint64
+	if strings.HasPrefix(s, "h") {
+		s = s[1:]
+		base = 1 << 48
+	}
 	if len(s) > 12 {
 		s = s[:12]
 	}
 	v, _ := strconv.ParseUint(s, 16, 64)
-	return v
+	return base + v
 }
 
 func (w *c04World) bySalted(s string) int {
@@ -173,6 +191,7 @@ func (w *c04World) tokOrd(s string, pending *c04Tok) string {
 	}
 	if pending != nil && (pending.salted == "" || pending.salted == s) {
 		pending.salted = s
+		pending.seen = true
 		return strconv.Itoa(pending.ord)
 	}
 	return "?"
@@ -234,20 +253,30 @@ func (w *c04World) canon(k string, pending *c04Tok) string {
 	case strings.HasPrefix(k, w.cubPfx):
 		parts := strings.Split(strings.TrimPrefix(k, w.cubPfx), "/")
 		if len(parts) == 2 {
-			for _, tk := range w.toks {
+			all := w.toks
+			if pending != nil {
+				all = append(append([]*c04Tok{}, w.toks...), pending)
+			}
+			for _, tk := range all {
+				kind := ""
 				if tk.cubID != "" && tk.cubID == parts[0] {
+					kind = "c"
+				} else if tk.cubSalted != "" && tk.cubSalted == parts[0] {
+					kind = "s"
+				}
+				if kind != "" {
 					if parts[1] == "" {
-						return "cub:" + strconv.Itoa(tk.ord)
+						return "cub:" + kind + strconv.Itoa(tk.ord)
 					}
-					return "cub:" + strconv.Itoa(tk.ord) + ":" + strings.TrimPrefix(parts[1], "k")
+					return "cub:" + kind + strconv.Itoa(tk.ord) + ":" + strings.TrimPrefix(parts[1], "k")
 				}
 			}
-			if pending != nil && (pending.cubID == "" || pending.cubID == parts[0]) {
+			if pending != nil && !pending.custom && pending.cubID == "" {
 				pending.cubID = parts[0]
 				if parts[1] == "" {
-					return "cub:" + strconv.Itoa(pending.ord)
+					return "cub:c" + strconv.Itoa(pending.ord)
 				}
-				return "cub:" + strconv.Itoa(pending.ord) + ":" + strings.TrimPrefix(parts[1], "k")
+				return "cub:c" + strconv.Itoa(pending.ord) + ":" + strings.TrimPrefix(parts[1], "k")
 			}
 		}
 		return "cub:?"
@@ -313,13 +342,20 @@ func (w *c04World) register(tok string, parent int) *c04Tok {
 	}
 	acc, _ := w.c.tokenStore.SaltID(vhRootCtx(), te.Accessor)
 	tk := &c04Tok{ord: len(w.toks), token: tok, inner: inner, salted: salted, accessor: te.Accessor, accSalted: acc,
-		cubID: te.CubbyholeID, leaseID: te.Path + "/" + salted, parent: parent}
+		cubID: te.CubbyholeID, leaseID: te.Path + "/" + salted, parent: parent, cubWritten: map[int]bool{}}
+	tk.cubSalted = w.doubleSalt(salted)
 	if parent >= 0 {
 		tk.depth = w.toks[parent].depth + 1
 		w.toks[parent].kids++
 	}
 	w.toks = append(w.toks, tk)
 	return tk
+}
+
+// doubleSalt: the cubbyhole view's salt applied to the token store's salted id (what the router computes for
+// a root-namespace token without the service prefix, and what destroyCubbyhole clears for it)
+func (w *c04World) doubleSalt(salted string) string {
+	return salt.SaltID(w.c.tokenStore.cubbyholeBackend.saltUUID, salted, salt.SHA1Hash)
 }
 
 // settle waits until the expiration workers have finished every lease that is marked expired.
@@ -495,9 +531,14 @@ func (w *c04World) digest() string {
 				tix = append(tix, c04Item{1 << 30, 0, cn})
 			}
 		case "cub":
-			if len(f) == 3 {
-				cub = append(cub, c04Item{c04Atoi(f[1]), c04Atoi(f[2]), f[1] + ":" + f[2]})
-				w.lastCub[c04Atoi(f[1])]++
+			if len(f) == 3 && len(f[1]) > 1 {
+				o := c04Atoi(f[1][1:])
+				kind := 0
+				if f[1][0] == 's' {
+					kind = 1000
+				}
+				cub = append(cub, c04Item{o, kind + c04Atoi(f[2]), f[1] + ":" + f[2]})
+				w.lastCub[o]++
 			} else {
 				cub = append(cub, c04Item{1 << 30, 0, cn})
 			}
@@ -555,8 +596,12 @@ func (w *c04World) observe() {
 // emitCheck writes the verdict of the property's predicate on its own line, so that a `state` line is always
 // compared with the model as it is
 func (w *c04World) emitCheck(viol string) {
+	if viol == "" {
+		viol = w.pendViol
+	}
+	w.pendViol = ""
 	if viol != "" {
-		w.emit("ok!VIOL:"+viol, "check")
+		w.emit("ok!C04V:"+viol, "check") // reported per case by props/C04.py, with the whole history
 	} else {
 		w.emit("ok", "check")
 	}
@@ -708,7 +753,89 @@ func (w *c04World) stepCubby(t, k int) {
 		cl, _ = vhReq(w.c, logical.UpdateOperation, "cubbyhole/k"+strconv.Itoa(k), w.toks[t].token, map[string]any{"v": "1"})
 	})
 	w.settle()
+	if cl == "ok" && w.toks[t].cubWritten != nil {
+		w.toks[t].cubWritten[k] = true
+	}
 	w.emit(cl+"|"+w.canonTrace(ops, 0, nil), "cubby", strconv.Itoa(t), strconv.Itoa(k))
+}
+
+// stepCubRead reads cubbyhole/k<k> with token t: data the current incarnation of the token did not write must
+// not be there (a re-created token with a caller-chosen id must not see its revoked namesake's cubbyhole)
+func (w *c04World) stepCubRead(t, k int) {
+	var cl string
+	var resp *logical.Response
+	ops := w.do(func() {
+		cl, resp = vhReq(w.c, logical.ReadOperation, "cubbyhole/k"+strconv.Itoa(k), w.toks[t].token, nil)
+	})
+	w.settle()
+	seen := "-"
+	if cl == "ok" {
+		seen = "absent"
+		if resp != nil && resp.Data != nil {
+			seen = "present"
+			if w.toks[t].cubWritten != nil && !w.toks[t].cubWritten[k] && w.pendViol == "" {
+				w.pendViol = "token t" + strconv.Itoa(t) + " reads cubbyhole key k" + strconv.Itoa(k) +
+					" that it never wrote: data of a revoked token with the same id#seq:cubbyhole-of-revoked-token-readable"
+			}
+		}
+	}
+	w.emit(cl+"|"+w.canonTrace(ops, 0, nil)+"|"+seen, "cubread", strconv.Itoa(t), strconv.Itoa(k))
+}
+
+// stepMkID: auth/token/create by r with a caller-chosen id; x is the identity's ordinal (len(w.toks) = a new id,
+// else the id of an existing custom token, normally one that has been revoked)
+func (w *c04World) stepMkID(r, x int) int {
+	var pending *c04Tok
+	var id, oldAccSalted string
+	if x < len(w.toks) {
+		pending = w.toks[x]
+		id = pending.inner
+		oldAccSalted = pending.accSalted
+		if w.lastProbe[x] != "ok" { // the old accessor index went with the revocation; a new one is coming
+			pending.accSalted = ""
+		}
+	} else {
+		id = "c04id" + strconv.Itoa(w.caseNo) + "x" + strconv.Itoa(x)
+		salted, _ := w.c.tokenStore.SaltID(vhRootCtx(), id)
+		pending = &c04Tok{ord: x, token: id, inner: id, salted: salted, custom: true, parent: -1,
+			leaseID: "auth/token/create/" + salted, cubSalted: w.doubleSalt(salted)}
+	}
+	var cl string
+	var resp *logical.Response
+	ops := w.do(func() {
+		cl, resp = vhReq(w.c, logical.UpdateOperation, "auth/token/create", w.toks[r].token,
+			map[string]any{"id": id, "ttl": "1h", "policies": []string{"default", "c04"}})
+	})
+	pending.seen = false
+	trace := w.canonTrace(ops, 0, pending)
+	if x == len(w.toks) && (pending.seen || cl == "ok") {
+		w.toks = append(w.toks, pending)
+	}
+	if cl == "ok" && resp != nil && resp.Auth != nil {
+		pending.token = resp.Auth.ClientToken
+		pending.parent = r
+		pending.depth = w.toks[r].depth + 1
+		pending.cubID = ""
+		if raw, err := w.c.barrier.Get(vhRootCtx(), "sys/token/id/"+pending.salted); err == nil && raw != nil {
+			var te logical.TokenEntry
+			if json.Unmarshal(raw.Value, &te) == nil {
+				pending.cubID = te.CubbyholeID
+				pending.accessor = te.Accessor
+				pending.accSalted, _ = w.c.tokenStore.SaltID(vhRootCtx(), te.Accessor)
+			}
+		}
+		pending.cubWritten = map[int]bool{}
+		delete(w.dead, x) // a new incarnation of the identity
+	}
+	if cl != "ok" && pending.accSalted == "" {
+		pending.accSalted = oldAccSalted
+	}
+	w.settle()
+	w.emit(cl+"|"+trace, "mkid", strconv.Itoa(r), strconv.Itoa(x), strconv.FormatUint(c04Skey(pending.salted), 10))
+	if cl == "ok" {
+		return x
+	}
+	return -1
 }
 
 func (w *c04World) stepLease(t int) {
@@ -822,6 +949,7 @@ type c04Shape struct {
 	orphan  []bool
 	cub     [][]int // cubbyhole key numbers written with the token
 	nlease  []int
+	custom  []bool // created with a caller-chosen id
 }
 
 func c04RandShape(rng *vh.Rand, n int) c04Shape {
@@ -840,6 +968,7 @@ func c04RandShape(rng *vh.Rand, n int) c04Shape {
 		orphan := rng.Chance(15)
 		sh.parent = append(sh.parent, p)
 		sh.orphan = append(sh.orphan, orphan)
+		sh.custom = append(sh.custom, !orphan && rng.Chance(20))
 		if orphan {
 			depth = append(depth, 1)
 		} else {
@@ -866,7 +995,12 @@ func c04RandShape(rng *vh.Rand, n int) c04Shape {
 
 func (w *c04World) build(sh c04Shape) {
 	for i := range sh.parent {
-		o := w.stepMk(sh.parent[i], sh.orphan[i])
+		var o int
+		if i < len(sh.custom) && sh.custom[i] && !sh.orphan[i] {
+			o = w.stepMkID(sh.parent[i], len(w.toks))
+		} else {
+			o = w.stepMk(sh.parent[i], sh.orphan[i])
+		}
 		if o < 0 {
 			w.t.Fatalf("build: create failed")
 		}
@@ -931,9 +1065,45 @@ func TestVerifC04Seq(t *testing.T) {
 			}
 			switch x := cr.Intn(100); {
 			case x < 22:
-				if n < 14 {
+				// dead identities with a caller-chosen id: re-create one of them sometimes
+				var deadCustom []int
+				for o := 1; o < n; o++ {
+					if w.toks[o].custom && w.lastProbe[o] != "ok" {
+						deadCustom = append(deadCustom, o)
+					}
+				}
+				switch {
+				case len(deadCustom) > 0 && cr.Chance(50):
+					r := 0
+					if cr.Chance(30) {
+						r = pick(true)
+					}
+					id := deadCustom[cr.Intn(len(deadCustom))]
+					if w.stepMkID(r, id) >= 0 {
+						// the new incarnation must not see anything of the revoked one
+						for k := 0; k < 3; k++ {
+							w.stepCubRead(id, k)
+						}
+					}
+				case n < 14 && cr.Chance(30):
+					r := 0
+					if cr.Chance(30) {
+						r = pick(true)
+					}
+					if cr.Chance(8) && n > 1 && len(live) > 0 {
+						// an id that is in use: refused
+						for _, o := range live {
+							if w.toks[o].custom {
+								w.stepMkID(r, o)
+								break
+							}
+						}
+					} else {
+						w.stepMkID(r, n)
+					}
+				case n < 14:
 					w.stepMk(pick(true), cr.Chance(15))
-				} else {
+				default:
 					w.stepRenew(pick(false))
 				}
 			case x < 30:
